@@ -128,7 +128,7 @@ fn run_inner<P: Property>(args: &RunArgs, root: &PathBuf, start: Instant) -> i32
             let _ = e.read_to_string(&mut stderr_txt);
         }
         let ok_exit = status.map(|s| s.success()).unwrap_or(false);
-        match std::fs::read(&*out).ok().and_then(|b| serde_json::from_slice::<WorkerReport>(&b).ok()) {
+        match std::fs::read(&*out).ok().and_then(|b| from_slice_deep::<WorkerReport>(&b).ok()) {
             Some(rep) if ok_exit => {
                 agg.generated += rep.generated;
                 agg.enumerated += rep.enumerated;
@@ -204,7 +204,7 @@ fn run_inner<P: Property>(args: &RunArgs, root: &PathBuf, start: Instant) -> i32
             let dst = outdir.join(format!("crash-w{}-seed{}.json", w, args.seed));
             let spec: serde_json::Value = std::fs::read(cur)
                 .ok()
-                .and_then(|b| serde_json::from_slice(&b).ok())
+                .and_then(|b| from_slice_deep(&b).ok())
                 .unwrap_or(serde_json::Value::Null);
             let doc = serde_json::json!({"property": id, "signature": format!("{}/process-death", id),
                 "observed": desc, "expected": "worker survives", "spec": spec});
